@@ -18,7 +18,8 @@ interpretation in which each sub-graph denotes the node it replaces, names stay 
 it; all transformations: the result has no dangling input and no cycle; the traversal hands every reachable node to
 the callbacks exactly once, parents first (Transformer docstring).
 The model runs its own traversal loop: the case is sent as listed (creation order); the finishing orders (graph and
-sub-graphs) and, for expand, the decidable domain are compared as well.
+sub-graphs) and, for expand, the decidable domain are compared as well; the inputs of every node are compared in the order
+of the inputs dict (canon(ordered=True)); outcome kinds are compared un-collapsed (outcome_mismatch).
 """
 import collections
 import glob
@@ -31,30 +32,43 @@ LEVEL_TEXT = ("Lean theorems over Model/Graph.lean (graph = topologically ordere
               "under an interpretation of the payloads, both by recursion on the order; the `while todo:` traversal loop of Transformer.transform "
               "itself, the generic callback fold + output lookup; _Copier, _Renamer, join_namespaced/Graph.__add__, _DedupTransformer, "
               "Splitter/CutEdge, Splicer (also subclasses overriding splice_source/splice_sink)/_Subgraph/_Expander, _FuseTransformer with "
-              "fresh-node and with current-mutating callbacks), unbounded in graph size and for all node/input/output names: the traversal loop "
+              "fresh-node and with current-mutating callbacks), unbounded in graph size and - EXCEPT where a clause below names its own condition on "
+              "names (split re-join, expand names) or on the predicate (dedup uniqueness) - for all node/input/output names: the traversal loop "
               "terminates on every well-formed graph within |sinks| + 2*|nodes| iterations and finishes exactly the nodes reachable from the "
               "sinks, once each, parents first; the graph re-listed in that order is well formed with the same sink terms and values; copy "
               "and rename return the same structure (names mapped) with identical sink terms (c11_copy/c11_copy_iso say that rebuilding every "
               "node through the traversal and the output lookup reproduces the node list: the model's copy is the identity on the list, its "
               "content is that it never fails and re-wires every input to the right image); join_namespaced/+ concatenate the operands' sink "
-              "terms; dedup keeps the set of sink terms, leaves no two nodes with equal payload/outputs/inputs and is idempotent; split gives "
-              "every node exactly one image, in the part of its key, and re-joining by name along the reported cut edges restores every node, "
-              "the wiring, the sinks and all denotations; expand is TOTAL on the decidable domain expandOK (sub-graphs are graphs, input maps "
+              "terms; dedup: c11_dedup_sinks - one image map node->node, every node's image has the same outputs and term, the result's sinks are "
+              "exactly the images of the input's sinks, so every input sink has ITS corresponding sink with the same term (c11_dedup_den is the "
+              "set form: the code returns a Python set of sinks); dedup is idempotent; c11_dedup_unique (no two nodes with equal "
+              "payload/outputs/inputs) needs the hypothesis `hc`, i.e. is proved ONLY for predicates that hold whenever the payloads are equal "
+              "(same_payload, the default); c11_dedup_unique_pred: for ANY reflexive predicate implying equal payloads (also the payload+name and "
+              "payload+name-length predicates the tie runs, where `hc` fails) no two result nodes have equal outputs, equal inputs and "
+              "pred(later, earlier); split gives "
+              "every node exactly one image, in the part of its key, and - c11_split_rejoin, ONLY for graphs whose node names are pairwise "
+              "different (Nodup) and cut names that are injective in the cut edge and different from every node name - re-joining by name along "
+              "the reported cut edges restores every node, the wiring, the sinks and all denotations (with equal node names or colliding cut "
+              "names nothing is proved about the re-join; the harness generates unique names for split); expand is TOTAL on the decidable domain expandOK (sub-graphs are graphs, input maps "
               "name existing inputs, every consumed output selects a usable leaf), for Splicer and for every sane override (SpliceOK): it "
               "returns a well-formed (no dangling input, acyclic) graph whose node list is given in closed form - every kept node re-wired "
               "through get_output of its parents' images, every expanded node replaced by the block sub.nodes.map(splicedNode): prefixed names, "
               "mapped sources turned into processors on the node's re-wired input per input map, inner edges shifted into the block, mapped "
               "sinks given the default output, leaves = the last sink of the selected name, inner sinks = the unselected sinks - and, for every "
               "interpretation and every expander whose sub-graphs denote the nodes they replace (ExpandSound), every kept node (so every kept "
-              "sink) keeps its value and every usable output of an expanded sink is carried by a leaf that is a sink of the result; names stay "
-              "unique when the input's are unique and dot-free and each sub-graph's are unique (with a decided witness that dots break this); "
+              "sink) keeps its value and every usable output of an expanded sink is carried by a leaf that is a sink of the result; "
+              "c11_expand_leaf_value: an expanded sink's consumer-visible output is the leaf the output map selects (fixed by graph and expander "
+              "alone, before the interpretation), it is a sink of the result and carries the value under every sound interpretation; "
+              "c11_expand_names: names stay unique ONLY when the input's names are unique and contain no '.' and each sub-graph's are unique "
+              "(c11_expand_names_clash is a decided witness that with dots two result nodes can share a name); "
               "fuse is TOTAL with a well-formed result and keeps every sink's value for every callback whose answers are sound in content "
               "(FuseSound + outputs kept / FuseSoundM), whether an answer is a fresh node or `current` itself, mutated; the fresh-only model is "
               "proved to be an instance of the mutating one and the harness' callbacks (any accept / in-place choice) are proved sound; plus "
               "removeprefix vs lstrip-as-character-set with the decided witness main/mean. Tied to the real code by a per-transformation "
-              "correspondence check on random adversarially named DAGs (result graphs, visiting orders of graph and sub-graphs, decidable "
-              "domain of expand, outcome kinds) and independent oracles (symbolic terms, numeric values, by-name wiring incl. inside "
-              "sub-graphs, traversal order, no dangling input / cycle).")
+              "correspondence check on random adversarially named DAGs (result graphs with every node's inputs IN THE ORDER of its inputs dict, "
+              "visiting orders of graph and sub-graphs, decidable domain of expand, outcome kinds un-collapsed: exception class against the "
+              "model's Err constructor) and independent oracles (symbolic terms, numeric values, by-name wiring incl. inside "
+              "sub-graphs, order of the inputs dict kept, traversal order, no dangling input / cycle).")
 LEVEL_NOTE = ("modelled, not verified: graph/{nodes,graph,visit,transform,copy,rename,deduplicate,split,expand,fuse}.py. Object identity is "
               "modelled by indices into a node store; the object graph handed to the model is the node list in creation order (inputs refer to "
               "earlier entries - what Node(...) guarantees) and the model runs its own traversal; payload equality, CutEdge hashing (cut names), "
@@ -63,29 +77,39 @@ LEVEL_NOTE = ("modelled, not verified: graph/{nodes,graph,visit,transform,copy,r
               "(e.g. the parent, mutated) or changing `parent` is not modelled (the store would no longer be topologically ordered); splice "
               "overrides answer with a fresh node of the given name whose inputs are (a renaming/selection of) what they are given; sub-graphs "
               "are values: after the fix 0e32f4b Splicer copies the sub-graph's nodes, so handing out one Graph object for several nodes is the "
-              "same as fresh copies (exercised); every transformer except copy_graph re-uses and re-wires the INPUT graph's node objects in "
-              "place (documented by the XXX comments), so 'input unchanged' is demanded of copy only. Known model mismatch outside the domain of "
-              "expand: asking for an output that does not exist makes the model stop with noOutput at the lookup, whereas the real "
-              "__transform_output falls through getattr to a (node, output) tuple or a _Subgraph instance attribute and fails later or not at "
-              "all; the comparison accepts exactly real-ok/real-KeyError against model-noOutput there and compares the domain flag on every case. "
+              "same as fresh copies (exercised); copy_graph and, since the fix 6e7c613, deduplicate_nodes work on copies of the nodes, so 'the "
+              "input graph denotes what it did' is demanded of copy and dedup; rename, split, expand (kept nodes) and fuse re-use and re-wire "
+              "the INPUT graph's node objects in place (documented by the XXX comments) and nothing is demanded of the input there. Known model "
+              "mismatch outside the domain of expand: asking for an output that does not exist makes the model stop with noOutput at the lookup, "
+              "whereas the real __transform_output falls through getattr to a (node, output) tuple or to an attribute of the Node / _Subgraph "
+              "and fails later or not at all; there the comparison accepts exactly model-noOutput against real ok / KeyError / AttributeError / "
+              "BadGraph (the junk is never looked at / overtaken by a later Splicer.__init__ / handed to Node(...) / found when the result is "
+              "read back), real TypeError only when the missing output is named like an attribute (the junk is a class or bound method), and "
+              "model-keyError against real KeyError; every other pair, and ANY error inside the domain or in another transformation, is a "
+              "mismatch; the domain flag is compared on every case. "
               "Not proved (checked by correspondence and oracle only, or not at all): custom Splitter.cut_edge overrides and other splicer "
-              "factories; sub-graphs with duplicate node names (the model files the LAST sink of a name as the leaf, as the code does; only "
-              "unique names are generated); inner sinks of an expanded node that is not itself a sink are not sinks of the result (modelled as "
-              "the code does it, nothing is claimed about them); fluent.Node graphs are run (thorough tier: copy, rename, dedup) but "
+              "factories; sub-graphs with duplicate node names or the same node twice in `sinks` (the model files the LAST sink of a name as the "
+              "leaf, as the code does: other sinks of that name are then not sinks of the result; generated at a low rate, compared by the tie, "
+              "the oracle demanding only that no foreign sink appears); the ORDER of a node's inputs dict is not part of the denotation "
+              "(inputs are named) and no theorem speaks about it - the model's input lists define it, the tie compares it and the oracle demands "
+              "that copy, rename, join, dedup, split and expand keep it (fuse_nodes offers the inputs to its callback in that order); "
+              "Node.copy's own order of the inputs is unobservable (every caller overwrites `.inputs`); inner sinks of an expanded node that is not itself a sink are not sinks of the result (modelled as "
+              "the code does it, nothing is claimed about them); fluent.Node graphs are run (both tiers: copy, rename, dedup) but "
               "fluent.Node.copy rebuilding from constructor arguments is not modelled beyond that; the expand value theorem needs the semantic "
               "premise ExpandSound, which is not decidable in general.")
 TECHNIQUE = "Lean 4 proof by induction over the topological order of the graph (simulation invariant of the generic Transformer fold; closed form of the splice; potential argument for the traversal loop) + differential correspondence with the real transforms + symbolic-term / numeric / by-name wiring / traversal-order oracles"
 LEAN_PROPS = ["EkwVerif.Props.C11"]
 LEAN_DRIVERS = ["C11"]
-RULE = ("corpus of minimised past failures first, then random DAGs (1..9 nodes quick, ..14 thorough; a few more with a collision cluster): shared sub-expressions, multi-output nodes, exact duplicates incl. permuted input "
-        "order and near-duplicates, several sinks incl. non-terminal ones and (6%) the same node twice in Graph.sinks, adversarial names (prefixes/character overlap with parents, "
+RULE = ("corpus of minimised past failures first, then random DAGs (1..9 nodes quick, ..14 thorough; a few more with a collision cluster): shared sub-expressions, multi-output nodes (up to 6 outputs; output lists that are "
+        "permutations of each other), 10% of the freshly drawn nodes with 4-6 inputs, exact duplicates incl. permuted input "
+        "order, twins that differ ONLY in the order of their outputs, and near-duplicates (of wide nodes: one of the 4-6 inputs re-pointed), several sinks incl. non-terminal ones and (6%) the same node twice in Graph.sinks, adversarial names (prefixes/character overlap with parents, "
         "dots, digits, output names equal to Node attributes, input names equal to callback parameter names), node names BUILT FROM other "
         "nodes' names, output names and input names (<node>.<output>, <node>.0, several dots, a dotted name's prefix that declares the "
         "rest as an output, names equal to output / input names, equal names of different nodes), name-collision clusters (one dotted "
         "string split in several ways into node name + output name, so that str(Output) / '<node>.<output>' of different outputs "
         "coincide) with equal-payload, equal-outputs, equal-input-name consumers on the colliding outputs, and twins of existing nodes "
         "re-pointed to outputs that render alike; 55% of the graphs (45% of the sub-graphs) are LISTED (= their node objects created) in a "
-        "random topological order that is not the order in which the traversal finishes nodes; thorough tier: 12% of the copy/rename/dedup "
+        "random topological order that is not the order in which the traversal finishes nodes; 1.5% (quick) / 12% (thorough) of the copy/rename/dedup "
         "graphs are built from fluent.Node objects; dedup also with custom predicates (payload+name, payload+name length); split keys also "
         "by role (colliding producers in one part, consumers in others) and as equal keys of different Python types (1 / 1.0 / True); "
         "join: 1-3 graphs under adversarial namespaces; "
@@ -94,16 +118,17 @@ RULE = ("corpus of minimised past failures first, then random DAGs (1..9 nodes q
         "two sources on one input, independent sources outside the map (also named like an input of the node); output map None / "
         "explicit / partial / shared leaf / keys that are no outputs / values None; 30%: ONE sub-graph object handed out for several nodes; "
         "40%: a Splicer subclass overriding splice_source / splice_sink (extra output + wrapped payload + input connected twice / renamed "
-        "inputs; only the first input kept); expander answers bare Graph, 3-tuple and (outside the documented "
-        "domain, only counted) 1-/2-tuples; fuse: callback answers fresh nodes, `current` mutated in place, or a mix chosen per parent; one case = one "
+        "inputs; only the first input kept); sub-graph nodes with 3-5 inputs (15%); expander answers bare Graph, 3-tuple, Graph([]) (3%), a sub-graph with two nodes of one name "
+        "(4%) or the same node twice in its sinks (4%), and (outside the documented domain; outcome kind compared with the ValueError of the "
+        "unpacking) 1-/2-tuples; fuse: callback answers fresh nodes, `current` mutated in place, or a mix chosen per parent; one case = one "
         "transformation (copy, rename, dedup, split, expand, fuse, join) of one DAG with random parameters. non-trivial = the DAG has >= 3 nodes "
         "and a shared sub-expression, a multi-output node or several sinks; distinct by content hash of (transformation, DAG, parameters)")
 ASSUMPTIONS = [
     "graphs are built with Node(...)/get_output (inputs refer to declared outputs of existing nodes, acyclic); input names name/outputs/payload/self are rejected by Node(...) itself and are outside the domain",
     "the node list given to the model is the creation order of the node objects; the order in which Transformer.transform finishes nodes is computed by the model (travLoop) and compared with the observed one, for the graph and for every sub-graph",
-    "split and expand cases use graphs with unique node names, sub-graphs included (CutEdge and the expander identify nodes by name; Splicer files leaves by name); cut names (hash based) are treated as injective and compared through the reported cut edges",
+    "split and expand cases use graphs with unique node names (CutEdge and the expander identify nodes by name; Splicer files leaves by name); sub-graphs have unique node names except for the 4% generated with two nodes of one name, where the oracle's by-name clauses skip the shared names and, if a selected leaf name is shared by several sinks, only inclusion of the sink terms/values is demanded; cut names (hash based) are treated as injective and compared through the reported cut edges",
     "payloads are compared with == only (same_payload); the harness uses payload values for which == is an equivalence; custom dedup predicates are reflexive and imply equal payloads",
-    "an expander answers None, a Graph or a 3-tuple (graph, input map | None, output map | None) as documented; 1-/2-tuples and maps that select a leaf or an input that does not exist (outside the model's decidable domain expandOK, which is compared with the harness' own notion on every case) are generated and their outcome KINDS compared, but the oracle demands nothing of them",
+    "an expander answers None, a Graph or a 3-tuple (graph, input map | None, output map | None) as documented; maps that select a leaf or an input that does not exist (outside the model's decidable domain expandOK, which is compared with the harness' own notion on every case) are generated and their outcome kinds compared pair by pair (exception class / model Err constructor, table at outcome_mismatch), but the oracle demands nothing of them; 1-/2-tuples must end in the ValueError of the unpacking (or in an out-of-domain stop before it)",
     "fusion callbacks and splice overrides are functions of their arguments that answer with a fresh node or (fusion) with `current` mutated; they do not touch other nodes",
 ]
 
@@ -114,6 +139,10 @@ TRANSFORMS = ["copy", "rename", "dedup", "split", "expand", "fuse", "join"]
 
 def _exc(e):
     return type(e).__name__
+
+
+ORDER_WHAT = ("the ORDER of a node's `inputs` dict is not the order the input graph's node has (the order is observable: "
+              "fuse_nodes offers the inputs to its callback in that order, and serialise/iteration follow it)")
 
 
 def _fail(kind, what):
@@ -273,6 +302,7 @@ def real_copy(case):
     from earthkit.workflows.graph import copy_graph
     g, objs = _build_input(case["g"])
     before = L.Sym(_pid).sinks(g)
+    before_o = L.Sym(_pid, ordered=True).sinks(g)
     try:
         c = copy_graph(g)
         res = _extract(c.sinks)
@@ -284,6 +314,8 @@ def real_copy(case):
         fails.append(_fail("sink-terms-changed", "a sink of the copy denotes a different term than the corresponding sink of the input"))
     if L.Sym(_pid).sinks(g) != before:
         fails.append(_fail("input-changed", "copy_graph changed what the input graph's sinks denote"))
+    if after == before and L.Sym(_pid, ordered=True).sinks(c) != before_o:
+        fails.append(_fail("input-order-changed", "copy: " + ORDER_WHAT))
     return {"ok": res}, fails
 
 
@@ -297,6 +329,7 @@ def real_rename(case):
     from earthkit.workflows.graph import rename_nodes
     g, objs = _build_input(case["g"])
     before = L.Sym(_pid).sinks(g)
+    before_o = L.Sym(_pid, ordered=True).sinks(g)
     try:
         r = rename_nodes(_rename_fn(case), g)
         res = _extract(r.sinks)
@@ -305,6 +338,8 @@ def real_rename(case):
     fails = graph_fails(res, "rename")
     if L.Sym(_pid).sinks(r) != before:
         fails.append(_fail("sink-terms-changed", "a sink of the renamed graph denotes a different term than the corresponding sink of the input"))
+    elif L.Sym(_pid, ordered=True).sinks(r) != before_o:
+        fails.append(_fail("input-order-changed", "rename: " + ORDER_WHAT))
     fn = _rename_fn(case)
     if sorted(n["name"] for n in res["nodes"]) != sorted(fn(n["name"]) for n in case["g"]["nodes"]):
         fails.append(_fail("rename-names", "the nodes of the result are not named func(name) for the nodes of the input"))
@@ -329,6 +364,7 @@ def real_dedup(case):
     pred = DEDUP_PREDS.get(case.get("pred"))
     dedup = (lambda gr: deduplicate_nodes(gr)) if pred is None else (lambda gr: deduplicate_nodes(gr, pred))
     extra = {None: lambda n: (), "payload+name": lambda n: (n.name,), "payload+name-length": lambda n: (len(n.name),)}[case.get("pred")]
+    shapes_before = {(L.hp(_pid(n.payload)), tuple(n.outputs), tuple(n.inputs)) for n in objs}
     try:
         d = dedup(g)
         res = _extract(d.sinks)
@@ -337,7 +373,12 @@ def real_dedup(case):
     fails = graph_fails(res, "dedup")
     if set(L.Sym(_pid).sinks(d)) != set(before):
         fails.append(_fail("sink-terms-changed", "the set of sink terms after de-duplication differs from the input's"))
+    if L.Sym(_pid).sinks(g) != before:
+        fails.append(_fail("input-changed", "deduplicate_nodes changed what the input graph's sinks denote (it works on copies since the fix 6e7c613)"))
     nodes = list(d.nodes())
+    if not fails and any((L.hp(_pid(n.payload)), tuple(n.outputs), tuple(n.inputs)) not in shapes_before for n in nodes):
+        # every node of the result is (a copy of) a node of the input re-wired: its payload, outputs and SEQUENCE of input names are that node's
+        fails.append(_fail("input-order-changed", "dedup: " + ORDER_WHAT))
     keys = collections.Counter(_dup_key(n) + extra(n) for n in nodes)
     if any(v > 1 for v in keys.values()):
         fails.append(_fail("dedup-not-unique", "two result nodes have equal payload, outputs and inputs (and are equal under the predicate)"))
@@ -361,6 +402,15 @@ def cut_canon_name(c):
 _KEY_TYPES = {"int": int, "float": float, "bool": bool}
 
 
+def _key_num(k):
+    """A key reported by split_graph -> the number it is, WITHOUT converting: only int / float / bool values that are
+    integral are keys the harness' key functions return (1, 1.0, True are one key for ==, hash and dict lookup; "1",
+    Decimal(1), numpy scalars or a tuple are not something a key function of the harness returned)."""
+    if type(k) not in (int, float, bool) or k != int(k):
+        raise L.BadGraph(f"split reports the key {k!r} of type {type(k).__name__}: not a value the key function returned")
+    return int(k)
+
+
 def _key_fn(case):
     """The key function: by node name.  case["keytypes"] makes it answer with equal keys of DIFFERENT Python types
     (1, 1.0, True are one key for `==`, hash and dict lookup; the model's keys are numbers)."""
@@ -377,17 +427,31 @@ def real_split(case):
     key = _key_fn(case)
     try:
         parts, cuts = split_graph(key, g)
-        cutt = [(int(c.source_key), c.source_node, c.source_output, int(c.dest_key), c.dest_node, c.dest_input) for c in cuts]
+        cutt = [(_key_num(c.source_key), c.source_node, c.source_output, _key_num(c.dest_key), c.dest_node, c.dest_input) for c in cuts]
         ren = {c.name: cut_canon_name(t) for c, t in zip(cuts, cutt)}
         res_parts = {}
         for k, pg in parts.items():
             a = _extract(pg.sinks)
             for n in a["nodes"]:
                 n["name"] = ren.get(n["name"], n["name"])
-            res_parts[int(k)] = a
+            if _key_num(k) in res_parts:
+                raise L.BadGraph(f"two parts have equal keys {k!r}")
+            res_parts[_key_num(k)] = a
     except Exception as e:
         return {"err": _exc(e)}, [_fail("raises", f"split_graph raised {_exc(e)}: {e}")]
     fails = [f for k, a in res_parts.items() for f in graph_fails(a, f"split part {k}")][:1]
+    # --- oracle: the keys the result reports ARE the values the key function returned (same Python type, not a
+    # conversion of them): a cut edge carries the key of its source node and of its destination node
+    ktypes = dict(map(tuple, case.get("keytypes", [])))
+    if len({n["name"] for n in ag["nodes"]}) == len(ag["nodes"]):
+        for c in cuts:
+            for kv, nm, side in ((c.source_key, c.source_node, "source"), (c.dest_key, c.dest_node, "destination")):
+                if type(kv).__name__ != ktypes.get(nm, "int"):
+                    fails.append(_fail("split-key-type", f"cut edge {c.source_node!r}->{c.dest_node!r}: the {side} key is {kv!r} "
+                                       f"({type(kv).__name__}), the key function returned a {ktypes.get(nm, 'int')} for {nm!r}"))
+                    break
+            if fails:
+                break
     # --- oracle (property text): every node in exactly one part, the part of its key
     tab = dict(map(tuple, case.get("keys", [])))
     dflt = case.get("default", 0)
@@ -406,6 +470,16 @@ def real_split(case):
         if ks[0] != want:
             fails.append(_fail("split-wrong-part", f"node {n['name']!r} with key {want} is in part {ks[0]}"))
             break
+    if not fails:
+        seqs = {n["name"]: [k for k, _, _ in n["inputs"]] for n in ag["nodes"]}
+        for k, a in res_parts.items():
+            for n in a["nodes"]:
+                if n["name"] not in cutnames and [kk for kk, _, _ in n["inputs"]] != seqs.get(n["name"]):
+                    fails.append(_fail("input-order-changed", f"split: node {n['name']!r} has the inputs {[kk for kk, _, _ in n['inputs']]}, the input graph's node has "
+                                       f"{seqs.get(n['name'])}: " + ORDER_WHAT))
+                    break
+            if fails:
+                break
     extra = set(where) - {n["name"] for n in ag["nodes"]}
     if extra:
         fails.append(_fail("split-not-partition", f"parts contain nodes that are not in the input: {sorted(extra)}"))
@@ -680,15 +754,27 @@ def expected_expand(ag, table, splicer="default"):
         sub = table[n["name"]]["sub"]
         for q, m in enumerate(sub["nodes"]):
             pay, outs, conn = spliced(i, q)
-            want_ins = tuple(sorted(((k,) + edge_image(c[1], c[2])) if c[0] == "edge"
-                                    else (k, n["name"] + "." + sub["nodes"][c[1]]["name"], c[2]) for k, c in conn))
+            want_ins = tuple(((k,) + edge_image(c[1], c[2])) if c[0] == "edge"
+                             else (k, n["name"] + "." + sub["nodes"][c[1]]["name"], c[2]) for k, c in conn)     # in the ORDER of the inputs
             full = n["name"] + "." + m["name"]
             if full in inner:
                 ambiguous.add(full)
             inner[full] = (L.hp(pay), tuple(outs), want_ins)
     for full in ambiguous:
         del inner[full]
-    return sorted(sinks), sorted(wiring), sorted(nums), inner
+    # an expanded SINK whose sub-graph lists several sinks under one selected leaf name (two nodes of one name, or one node
+    # twice in `sinks`): the documentation ("connected to the corresponding transformed sink") does not say which one is
+    # meant and Node names "should be unique within a graph"; the code files the LAST one as the leaf and the others are
+    # not sinks of the result (modelled: spliceLeaves / dictSet, compared by the tie).  The oracle then demands only that
+    # no foreign sink appears (set inclusion), not the multiset.
+    amb_leaf = False
+    for s in set(ag["sinks"]):
+        if nodes[s]["name"] in table:
+            sub = table[nodes[s]["name"]]["sub"]
+            cnt = collections.Counter(sub["nodes"][q]["name"] for q in sub["sinks"])
+            if any(cnt[ln] > 1 for ln in leaf_names(s)):
+                amb_leaf = True
+    return sorted(sinks), sorted(wiring), sorted(nums), inner, amb_leaf
 
 
 def real_expand(case):
@@ -727,14 +813,14 @@ def real_expand(case):
         want = expected_expand(ag, table, case.get("splicer"))
     except Invalid as e:
         want = None
-    dom = {} if bad_shape else {"domain": want is not None}     # compared with the model's decidable domain `expandOK`
+    dom = {"bad_shape": True} if bad_shape else {"domain": want is not None}     # compared with the model's decidable domain `expandOK`
     try:
         r = expand_graph(ex, g, splicer_factory(case.get("splicer")))
         res = _extract(r.sinks)
     except Exception as e:
         if want is None:
-            return {"err": _exc(e), "invalid": not isinstance(e, KeyError), **dom}, []
-        return {"err": _exc(e), **dom}, [_fail("raises", f"expand_graph raised {_exc(e)}: {e}")]
+            return {"err": _exc(e), "msg": str(e)[:160], "invalid": not isinstance(e, KeyError), **dom}, []
+        return {"err": _exc(e), "msg": str(e)[:160], **dom}, [_fail("raises", f"expand_graph raised {_exc(e)}: {e}")]
     if want is None:
         # meaningless expansion (selects a leaf / input that does not exist): whether the junk it produces is
         # ever looked at depends on the rest of the graph; outside the domain, nothing is compared
@@ -742,14 +828,18 @@ def real_expand(case):
     fails = []
     if want is not None:
         got = sorted(L.Sym(_pid).sinks(r))
-        if got != want[0]:
+        if (not set(got) <= set(want[0])) if want[4] else (got != want[0]):
             fails.append(_fail("sink-terms-changed", "the sinks of the expanded graph do not denote the sinks of the input with every "
                                "expanded node replaced by its sub-graph (leaf selected by the output map, sources connected per input map)"))
         names = [n["name"] for n in res["nodes"]]
         spliced = {nm + "." + m["name"] for nm, e in table.items() for m in e["sub"]["nodes"]}
         outer = {n["name"] for n in ag["nodes"]}
-        if len(set(names)) == len(names) and not (spliced & outer):     # nodes can be told apart by name
-            byname = {n["name"]: n for n in res["nodes"]}
+        # by-name clauses: a node is identified by its name, so exactly the names that two nodes of the result share, or that
+        # are both an outer node's name and a `<node>.<sub-graph node>` string, are skipped - not the whole case
+        ncount = collections.Counter(names)
+        clash = {nm for nm, c_ in ncount.items() if c_ > 1} | (spliced & outer)
+        if True:
+            byname = {n["name"]: n for n in res["nodes"] if n["name"] not in clash}
             for cname, k, pname, o in want[1]:
                 n = byname.get(cname)
                 if n is None:
@@ -763,15 +853,29 @@ def real_expand(case):
                 n = byname.get(fname)
                 if n is None:
                     continue      # not reachable from the result's sinks (e.g. an inner sink of a non-terminal expansion)
-                got = (L.hp(n["payload"]), tuple(n["outputs"]), tuple(sorted((kk, res["nodes"][j]["name"], oo) for kk, j, oo in n["inputs"])))
-                if got != (pay, outs, tuple(sorted(wins))):
+                got = (L.hp(n["payload"]), tuple(n["outputs"]), tuple((kk, res["nodes"][j]["name"], oo) for kk, j, oo in n["inputs"]))
+                if (got[0], got[1], tuple(sorted(got[2]))) != (pay, outs, tuple(sorted(wins))):
                     fails.append(_fail("expand-inner-miswired", f"spliced node {fname!r} is (payload, outputs, inputs) = {got}, "
                                        f"the documented splice gives {(pay, outs, tuple(sorted(wins)))}"))
                     break
+                if got[2] != tuple(wins):
+                    fails.append(_fail("input-order-changed", f"expand: spliced node {fname!r} has its inputs in the order {[x[0] for x in got[2]]}, the sub-graph's "
+                                       f"node (through the splice callbacks) has {[x[0] for x in wins]}: " + ORDER_WHAT))
+                    break
+            # kept nodes keep the order of their inputs
+            if not fails:
+                for n0 in ag["nodes"]:
+                    n = byname.get(n0["name"])
+                    if n0["name"] in table or n is None:
+                        continue
+                    if [kk for kk, _, _ in n["inputs"]] != [kk for kk, _, _ in n0["inputs"]]:
+                        fails.append(_fail("input-order-changed", f"expand: kept node {n0['name']!r}: " + ORDER_WHAT))
+                        break
         # values under a concrete interpretation of the payloads
         gf = graph_fails(res, "expand")
         fails += gf
-        if not gf and sorted(v[None] for v in (num_graph(res)[s_] for s_ in res["sinks"])) != want[2]:
+        gotv = [] if gf else sorted(v[None] for v in (num_graph(res)[s_] for s_ in res["sinks"]))
+        if not gf and ((not set(gotv) <= set(want[2])) if want[4] else (gotv != want[2])):
             fails.append(_fail("expand-values-changed", "under the interpretation num_val the sinks of the expanded graph do not compute "
                                "what the sinks of the input compute when every sub-graph denotes the node it replaces"))
         # names stay unique where the code can guarantee it: unique outer names without '.', unique names in each sub-graph
@@ -782,8 +886,10 @@ def real_expand(case):
                                "are unique and dot-free and each sub-graph's names are unique"))
     return {"ok": res, **dom,
             "stats": {"expand:wired_consumer_inputs": len(want[1]),
+                      "expand:byname_oracle:" + ("some_names_clash_and_are_skipped" if clash else "all_names_identify_a_node"): 1,
                       "expand:expanded_sinks": sum(1 for s_ in ag["sinks"] if ag["nodes"][s_]["name"] in table),
                       "expand:expansions": len(table),
+                      "expand:oracle:ambiguous_leaf_sinks_only_inclusion_demanded": int(want[4]),
                       "expand:spliced_nodes_checked": sum(1 for nm_ in want[3] if any(n["name"] == nm_ for n in res["nodes"])),
                       "expand:splicer:" + str(case.get("splicer") or "default"): 1}}, fails
 
@@ -908,6 +1014,7 @@ def real_join(case):
         others.append(o2)
         graphs[ns] = g2
     before = [t for gr in graphs.values() for t in L.Sym(_pid).sinks(gr)]
+    before_o = [t for gr in graphs.values() for t in L.Sym(_pid, ordered=True).sinks(gr)]
     want_names = sorted(ns + "." + n["name"] for ns, a in [[case["ns"], case["g"]]] + case.get("more", []) for n in a["nodes"])
     try:
         r = join_namespaced(**graphs)
@@ -917,6 +1024,8 @@ def real_join(case):
     fails = graph_fails(res, "join")
     if L.Sym(_pid).sinks(r) != before:
         fails.append(_fail("sink-terms-changed", "the sinks of the joined graph do not denote, in order, what the sinks of the operands denote"))
+    elif L.Sym(_pid, ordered=True).sinks(r) != before_o:
+        fails.append(_fail("input-order-changed", "join: " + ORDER_WHAT))
     if sorted(n["name"] for n in res["nodes"]) != want_names:
         fails.append(_fail("join-names", "the nodes of the joined graph are not named <namespace>.<name> for the nodes of the operands"))
     return {"ok": res}, fails
@@ -1311,7 +1420,7 @@ def gen_expansion(rng, node, adversarial=True, ag=None):
         cands = [(j, o) for j, x in enumerate(nodes) for o in x["outputs"]]
         if not cands:
             break
-        ks = rng.sample(pool_in, rng.randint(1, min(2, len(cands))))
+        ks = rng.sample(pool_in, rng.randint(3, 5) if rng.random() < 0.15 else rng.randint(1, min(2, len(cands))))    # 15%: 3-5 inputs
         nodes.append({"name": fresh(pick()), "outputs": list(rng.choice(outsets)),
                       "payload": rng.randint(0, 4), "inputs": [[kn] + list(rng.choice(cands)) for kn in ks]})
     use_omap = rng.random() < 0.6
@@ -1340,7 +1449,7 @@ def gen_expansion(rng, node, adversarial=True, ag=None):
             # a leaf that is a source of the sub-graph as well (only meaningful with a default output)
             nodes.append({"name": ln, "outputs": ["0"] if kind < 0.9 else [], "payload": rng.randint(0, 4), "inputs": []})
         else:
-            ks = rng.sample(pool_in, rng.randint(1, min(2, len(cands))))
+            ks = rng.sample(pool_in, rng.randint(3, 4) if rng.random() < 0.12 else rng.randint(1, min(2, len(cands))))    # 12%: a leaf with 3-4 inputs
             nodes.append({"name": ln, "outputs": outs, "payload": rng.randint(0, 4), "inputs": [[kn] + list(rng.choice(cands)) for kn in ks]})
         leaves[ln] = len(nodes) - 1
     if use_omap and rng.random() < 0.12:
@@ -1367,6 +1476,15 @@ def gen_expansion(rng, node, adversarial=True, ag=None):
     sub = L.normalise({"nodes": nodes, "sinks": sinks})
     if rng.random() < 0.45:
         sub = relist(rng, sub)         # Splicer.transform traverses the sub-graph: listing order != finishing order
+    r = rng.random()
+    if r < 0.03:
+        sub = {"nodes": [], "sinks": []}                                  # the expander answers Graph([])
+    elif r < 0.07 and len(sub["nodes"]) >= 2:
+        # two sub-graph nodes with ONE name (Splicer matches sources, sinks and leaves by name: the last sink of a name is the leaf)
+        i, j = rng.sample(range(len(sub["nodes"])), 2)
+        sub = dict(sub, nodes=[dict(m, name=sub["nodes"][j]["name"]) if t == i else m for t, m in enumerate(sub["nodes"])])
+    elif r < 0.11 and sub["sinks"]:
+        sub = dict(sub, sinks=sub["sinks"] + [rng.choice(sub["sinks"])])    # the same node twice in the sub-graph's `sinks`
     e = {"sub": sub, "imap": imap, "omap": omap}
     if imap is None and omap is None and rng.random() < 0.5:
         e["bare"] = True
@@ -1389,6 +1507,14 @@ def expansion_features(case):
         f["exp:shape:" + ("bare" if e.get("bare") else str(e.get("shape", 3)) + "-tuple")] += 1
         if e.get("share") is not None:
             f["exp:shared_subgraph_object"] += 1
+        if not sub["nodes"]:
+            f["exp:sub:empty_graph"] += 1
+        if len({m["name"] for m in sub["nodes"]}) < len(sub["nodes"]):
+            f["exp:sub:duplicate_node_names"] += 1
+        if len(set(sub["sinks"])) < len(sub["sinks"]):
+            f["exp:sub:same_node_twice_in_sinks"] += 1
+        if any(len(m["inputs"]) >= 3 for m in sub["nodes"]):
+            f["exp:sub:node_with_3plus_inputs"] += 1
         f["exp:imap:" + ("none" if e["imap"] is None else "empty" if not e["imap"] else
                          "full" if {b for _, b in e["imap"]} >= inames else "partial")] += 1
         outs = set(n["outputs"])
@@ -1437,43 +1563,61 @@ def model_outs(cases):
     return [json.loads(x) for x in res]
 
 
-# error kinds, un-collapsed: the model's Err constructors and the Python exception classes are put in classes
-#   key    : a dict lookup failed (`Splicer.__init__` with an input map naming an input the node does not have)
-#   output : an output that does not exist was asked for.  The model answers `noOutput` at the lookup; the real
-#            `__transform_output` never raises there - it falls through getattr to the `(node, output)` tuple (or, for a
-#            `_Subgraph`, to an instance attribute), and the junk either makes `Node(...)` / a later call raise
-#            AttributeError / TypeError or ends up as an input of the result (BadGraph when the result is read back)
-#   assert : a Python assert
-_ERR_CLASS = {"keyError": "key", "KeyError": "key",
-              "noOutput": "output", "dangling": "output", "AttributeError": "output", "BadGraph": "output", "TypeError": "output",
-              "assertion": "assert", "AssertionError": "assert"}
+# Outcome kinds are compared UN-COLLAPSED: the Python exception class against the model's Err constructor.
+#  * copy / rename / dedup / split / fuse / join, and expand INSIDE the decidable domain (expandOK): neither side can fail
+#    (c11_*_total, c11_expand_total); ANY error on either side is a mismatch, whatever its class.
+#  * expand OUTSIDE the domain - exactly these pairs are accepted, everything else is a mismatch:
+#      model keyError  / real KeyError        `Splicer.__init__`: the input map names an input the node does not have
+#      model noOutput  / real ok | KeyError | AttributeError | BadGraph
+#          an output that does not exist was asked for.  The model is EAGER: it stops with `noOutput` at the lookup.  The real
+#          `__transform_output` never raises there - it falls through `get_output` and `getattr` to the `(node, output)`
+#          tuple (for a `_Subgraph`/`Node`: to whatever attribute has that name), and that junk is either never looked at
+#          (ok), overtaken by the KeyError of a later `Splicer.__init__`, handed to `Node(...)` by splice_source /
+#          splice_sink (AttributeError: the junk has no `get_output`), or stored as an input of a kept node and found when
+#          the result is read back (BadGraph)
+#      model noOutput  / real TypeError       only when the missing output is NAMED like an attribute of Node / _Subgraph
+#          (`__class__`, `get_output`, `copy`, ...): the junk is then a class or a bound method and calling its
+#          `get_output()` is a TypeError, not an AttributeError
+_JUNK_ATTRS = None
 
 
-def err_class(out):
-    return _ERR_CLASS.get(str(out.get("err")), "other:" + str(out.get("err")))
+def _junk_attr_names():
+    global _JUNK_ATTRS
+    if _JUNK_ATTRS is None:
+        from earthkit.workflows.graph.expand import _Subgraph
+        _JUNK_ATTRS = set(L._node_attrs()) | set(dir(_Subgraph("x", {}, {}, []))) | {"name", "leaves", "output_map", "inner_sinks"}
+    return _JUNK_ATTRS
 
 
-def outcome_mismatch(t, io, mo):
-    """None if the outcomes of the real code (io) and of the model (mo) agree in kind, else a description.
-    Inside the domain (no error on either side is possible) any error is a mismatch.  Outside the domain of expand
-    the model is EAGER about missing outputs where the code is lazy (see above), so exactly these are accepted:
-    real ok + model `output` (the junk was never looked at), real `key` + model `output` (the model stopped earlier)."""
+def _asks_attr_named_output(case):
+    return any(o in _junk_attr_names() for n in case["g"]["nodes"] for _, _, o in n["inputs"])
+
+
+def err_name(out):
+    return str(out.get("err")) if "err" in out else "ok"
+
+
+def outcome_mismatch(t, io, mo, case=None):
+    """None if the outcomes of the real code (io) and of the model (mo) agree in kind, else a description (table above)."""
     ie, me = "err" in io, "err" in mo
     if not ie and not me:
         return None
-    ic = err_class(io) if ie else "ok"
-    mc = err_class(mo) if me else "ok"
-    if ic == mc:
-        return None
-    if t == "expand" and mo.get("domain") is False and mc == "output" and ic in ("ok", "key"):
-        return None
-    return f"real outcome {ic} ({io.get('err')}), model outcome {mc} ({mo.get('err')})"
+    ic, mc = err_name(io), err_name(mo)
+    if t == "expand" and mo.get("domain") is False:
+        if mc == "keyError" and ic == "KeyError":
+            return None
+        if mc == "noOutput" and ic in ("ok", "KeyError", "AttributeError", "BadGraph"):
+            return None
+        if mc == "noOutput" and ic == "TypeError" and case is not None and _asks_attr_named_output(case):
+            return None
+        return f"outside the domain of expand: real outcome {ic} ({io.get('msg', '')}), model outcome {mc}: not one of the documented pairs"
+    return f"real outcome {ic} ({io.get('msg', '')}), model outcome {mc}: no error is possible here on either side"
 
 
 def canon_out(t, out):
     """Canonical comparable form of an outcome (model or impl)."""
     if "err" in out:
-        return {"err": err_class(out)}
+        return {"err": err_name(out)}
     o = out["ok"]
     if t in ("copy", "rename", "expand", "fuse", "join"):
         return {"ok": L.canon(o)}
@@ -1497,21 +1641,30 @@ def model_split_view(o):
 
 def _load_corpus():
     from ekw.core import CORPUS_DIR
-    out = []
+    out, bad = [], []
     for f in sorted(glob.glob(str(CORPUS_DIR / "C11_*.json"))):
         try:
-            out.append(json.load(open(f))["case"])
-        except Exception:
-            pass
-    return out
+            case = json.load(open(f))["case"]
+            if not (isinstance(case, dict) and case.get("t") in TRANSFORMS and isinstance(case.get("g"), dict)):
+                raise ValueError("no case with a transformation `t` and a graph `g`")
+            out.append(case)
+        except Exception as e:
+            bad.append((f, f"{_exc(e)}: {e}"))
+    return out, bad
 
 
 def correspond(ctx):
     global FLUENT_P
     n = ctx.budget(7000, 60000)
     nmax = ctx.budget(9, 14)
-    FLUENT_P = ctx.budget(0, 12) / 100.0
-    cases = _load_corpus()
+    FLUENT_P = ctx.budget(1.5, 12) / 100.0       # quick tier too (about 45 cases): the import cost (3-10 s) is paid once
+    cases, bad_corpus = _load_corpus()
+    ctx.count("corpus_cases_loaded", len(cases))
+    for f, why in bad_corpus:
+        # a minimised past failure that can no longer be read is a regression test that silently stopped running:
+        # counted and reported as a broken correspondence (exit 1, the replay names the file), never skipped
+        ctx.count("corpus_files_unreadable")
+        ctx.disagree("corpus-file-unreadable", {"file": f}, "every corpus/C11_*.json holds a case {t, g, ...}", why)
     for i in range(n):
         t = TRANSFORMS[i % len(TRANSFORMS)]
         cases.append(gen_case(ctx.rng, t, nmax, adversarial=ctx.rng.random() < 0.7))
@@ -1586,14 +1739,22 @@ def correspond(ctx):
                     ctx.disagree("expand-total", case, mo, io)      # in the domain the real code must return (c11_expand_total)
                     continue
         if t == "expand" and "domain" not in io:
-            ctx.count("expand:undocumented_answer_shape_not_compared")       # 1-/2-tuples: ValueError in the real code, no model
+            # 1-/2-tuple answers (not a documented shape; the model has none): the OUTCOME KIND is compared with what the
+            # unpacking `expanded, input_map, output_map = expanded` must do - every node of a case is reachable, so the
+            # expander is asked about the node and the real code must raise ValueError, unless the run stopped earlier for
+            # one of the reasons that exist outside the domain of the 3-tuple-completed case (model: not ok there)
+            ic = err_name(io)
+            ctx.count("expand:undocumented_answer_shape:outcome_kind_compared:" + ic)
+            if not (ic == "ValueError" or ("err" in mo and mo.get("domain") is False and outcome_mismatch(t, io, mo, case) is None and ic != "ok")):
+                ctx.disagree("expand-answer-shape", case, "ValueError from unpacking a 1-/2-tuple (or an out-of-domain stop before it)",
+                             f"real outcome {ic} ({io.get('msg', '')})")
             continue
-        bad = outcome_mismatch(t, io, mo)
+        bad = outcome_mismatch(t, io, mo, case)
         if bad is not None:
             ctx.disagree(t + "-outcome", case, mo, bad)
             continue
         if "err" in io or "err" in mo:
-            ctx.count("outcome_kinds_compared:" + (err_class(io) if "err" in io else "ok") + "/" + (err_class(mo) if "err" in mo else "ok"))
+            ctx.count("outcome_kinds_compared:" + err_name(io) + "/" + err_name(mo))
             continue
         if io.get("invalid"):
             # outside the domain both returned: the graphs are compared as well (nothing is demanded by the oracle)
